@@ -96,7 +96,8 @@ def run_child(hashseed, cases, keep_contents=False, timeout=900):
     try:
         cwd = _prepare_process_dir(root, kind, cases)
         if kind == 'other-locale-home-and-depth':
-            env.update({'LC_ALL': 'C', 'LANG': 'C', 'TZ': 'Pacific/Kiritimati', 'HOME': cwd, 'USER': 'somebody-else', 'COLUMNS': '37'})
+            env.update({'LC_ALL': 'C', 'LANG': 'C', 'PYTHONUTF8': '0', 'PYTHONCOERCECLOCALE': '0', 'TZ': 'Pacific/Kiritimati', 'HOME': cwd,
+                        'USER': 'somebody-else', 'COLUMNS': '37'})   # a genuinely non-UTF-8 process (preferred encoding ASCII)
         req = {'mode': 'build', 'keep_contents': keep_contents,
                'cases': [{'id': c['id'], 'json_ast': c['json_ast'], 'cfgspecs': c['cfgspecs']} for c in cases]}
         # interpreter options are properties of the process as well: -OO strips asserts and docstrings, -B/-s/-X dev change
